@@ -72,7 +72,7 @@ def importToPath (pkgPath : String) : String :=
 /-- `ImportDecl.CoqDecl`: the logical path is the whole mapped import path with '/' ↦ '.'. -/
 def coqRequire (importPath : String) : String :=
   let c := pathToCoqPath importPath
-  let logical := (dirOf c).replace "/" "." ++ "." ++ baseOf c
+  let logical := c.replace "/" "."
   if (baseOf importPath).startsWith "trusted_" then
     "From Perennial.goose_lang.trusted Require Import " ++ logical ++ "."
   else "From Goose Require " ++ logical ++ "."
